@@ -484,14 +484,17 @@ func c11Check(sc *c11Scenario, ex *c11Exec, returned ReleaseList, newly bool) *c
 			out.metTasks++
 		} else {
 			out.unmetTasks++
-			// converse (never a verdict): stopped although a useful candidate was never tried
+			// "eviction stops as soon as the released resources cover the target": the loop returned with the
+			// target still short although a candidate of the task's list that frees something of what is short was
+			// never attempted (not a failed call, not an already evicted pod)
 			for _, q := range t.list {
-				if succ[q.idx] || known[q.idx] || attempted[[2]int{t.idx, q.idx}] {
+				if succ[q.idx] || known[q.idx] || sc.pending[q.idx] || attempted[[2]int{t.idx, q.idx}] {
 					continue
 				}
 				for r := range rem {
 					if q.truth(t.typ, r) > 0 {
 						out.stoppedEarly++
+						add("C11/sufficiency/stopped-before-target-covered", "task %d (%s) ended with target %v still short by %v although candidate %s of its list, which frees part of it, was never attempted", t.idx, t.feature, t.target, rem, q.name)
 						break
 					}
 				}
@@ -797,7 +800,7 @@ func c11CountOutcome(c *kit.Case, out *c11Outcome) {
 	c.Count("already_evicted_counted", out.pendingSeen)
 	c.Count("tasks_target_met", out.metTasks)
 	c.Count("tasks_target_unmet", out.unmetTasks)
-	c.Count("converse_misses_loop_stopped_with_useful_candidate_untried", out.stoppedEarly)
+	c.Count("loop_untried_useful_candidates_when_stopped_short", out.stoppedEarly)
 	c.Count("oracle_attempt_checks", out.attempts)
 }
 
